@@ -106,3 +106,6 @@ pub use value::TulispValue;
 
 mod object;
 pub use object::TulispObject;
+
+#[cfg(tulisp_verif)]
+pub mod verif_hooks;
